@@ -422,7 +422,7 @@ func c05DoneStormCase(r *vlib.Rand) *c05Spec {
 		ms.Items = append(ms.Items, &c05Item{ID: fmt.Sprintf("ma-mt%d", j), Kind: kinds[(j+r.Intn(6))%6], Settled: true, Wait: "ctx", LingerMs: l, Cycle: 1, DoneCalls: 1})
 	}
 	sp.Mods = []*c05Mod{ms, dep}
-	sp.DoneStorm = &doneStorm{Mod: "ma", N: 200, Callers: r.Range(2, 4)}
+	sp.DoneStorm = &doneStorm{Mod: "ma", N: vlib.Pick(r, 20, 60, 200), Callers: r.Range(2, 4)}
 	if r.Chance(1, 3) {
 		sp.Mgmt, sp.StopVia, sp.Disable = true, "manage", []string{"ma"}
 	}
